@@ -280,7 +280,8 @@ func kinds() []*Kind {
 			Name: "authenticator/jwt+metadata", Class: "authenticator", Type: "jwt",
 			Catalogue: func() map[string]any {
 				return map[string]any{
-					"metadata_endpoint": map[string]any{"url": metadataURL},
+					// headers of its own, none of which is one of those the lookup adds by default
+					"metadata_endpoint": map[string]any{"url": metadataURL, "headers": map[string]any{"X-Cat": "c"}},
 					"cache_ttl":         "5m",
 				}
 			},
